@@ -20,6 +20,13 @@ FRAMES = [
      'scope': ['circus.watcher', 'circus.arbiter', 'circus.commands'],
      'what': 'Process objects are constructed only in Watcher.spawn_process',
      'allowed': ['circus.watcher:Watcher.spawn_process']},
+    {'name': 'daemon-environ-read-only', 'kind': 'escaping_use', 'object': 'os.environ',
+     'scope': ['circus.watcher', 'circus.process', 'circus.arbiter', 'circus.util', 'circus.config', 'circus.commands',
+               'circus.stream', 'circus.sockets', 'circus.controller'],
+     'what': 'the daemon\'s own os.environ is only ever read (copy / get / items / dict(...) / subscript / in): no watcher '
+             'environment aliases it and nothing writes through it, so what one watcher adds to its environment cannot '
+             'reach another watcher\'s workers or the daemon',
+     'allowed': []},
 ]
 ASSUMPTIONS = ['A-PY', 'A-TYPES: declared field sorts (checked at every store inside functions under contract)',
                'T-PSUTIL psutil.Popen = subprocess.Popen executes exactly the argument vector / cwd / env it is given',
